@@ -152,6 +152,10 @@ def main(ctx):
     ctx.tlc_model("Pipeline", "Pipeline_sched_thorough.cfg" if thorough else "Pipeline_sched.cfg",
                   env={"VERIF_CASES": sched}, timeout=1500, deadlock_check=True)
     ctx.tlc_model("Pipeline", "Pipeline_thorough.cfg" if thorough else "Pipeline_quick.cfg", timeout=1500, deadlock_check=True)
+    # unbounded: the re-sequencing buffer of SortBatches is proved correct with TLAPS for EVERY number of batches and every
+    # arrival history (spec/ind/ReseqProofs.tla); PipelineReseq checks that Pipeline.tla refines the proved module
+    ctx.tlapm("ReseqProofs.tla", needs=("ReseqProof.tla",))
+    ctx.tlc_model("PipelineReseq", "PipelineReseq_thorough.cfg" if thorough else "PipelineReseq_quick.cfg", timeout=900)
     # implementation-shaped state machines of Rebatch / FilterEmpty / DivideOn / Distribute refine the closed forms
     ctx.tlc_model("CommandMC", "CommandMC.cfg", timeout=900)     # the layers compose: stdout / totals in closed form
     ctx.tlc_model("Combinators", "Combinators_thorough.cfg" if thorough else "Combinators_quick.cfg", timeout=1500, deadlock_check=True)
